@@ -95,4 +95,4 @@ if __name__ == '__main__':
     elif sys.argv[1] == 'check':
         check(sys.argv[2], sys.argv[3:])
     elif sys.argv[1] == 'scratchcheck':
-        check(sys.argv[2], sys.argv[3:], scratch='/tmp/wt/mrepo')
+        check(sys.argv[2], sys.argv[3:], scratch=os.environ.get('MUTANT_SCRATCH', '/tmp/wt/mrepo'))
